@@ -39,9 +39,10 @@ CLAIMS = {
     "C04": C("Proved for all rate histories, all max_cycles >= 1, patience >= 1, min_delta, fitness_error: __should_stop__ returns exactly the "
              "predicate Stop of the statement (both directions; the code's window over first differences against 0 is proved equivalent), "
              "__error_check__ appends |1 - mean fitness| and the difference, optimize()'s loop (invariant: no earlier stop, one generation "
-             "and one rate per cycle, cycle <= max_cycles; variant max_cycles - cycle) stops at the first cycle where Stop holds. "
-             "EFF FRAME-book: no optimizer touches the cycle counter or the rate lists. Bounded: rate k = |1 - mean fitness| of generation k "
-             "for later cycles, stop rule recomputed on real runs with three stopping configurations per optimizer.",
+             "and one rate per cycle, rate k = |1 - mean fitness of recorded generation k| for every k, cycle <= max_cycles; variant "
+             "max_cycles - cycle) stops at the first cycle where Stop holds and returns exactly those rates. "
+             "EFF FRAME-book: no optimizer touches the cycle counter or the rate lists. Bounded (redundant with the proof, kept as a "
+             "cross-check of the encoding): rates and stop rule recomputed on real runs with three stopping configurations per optimizer.",
              NOTE_VC + NOTE_HOOKS + "Termination of optimization_step itself is assumed.", TECH_VC + "; " + TECH_EFF + "; " + TECH_BND),
     "C05": C("Proved: the abstract objective_function carries the precondition Space(task, x); its only call site (Task.solve) discharges it "
              "from correct_solution's postcondition; EFF CALLS shows objective_function / solve / _fcn have no other caller in the package "
@@ -92,9 +93,12 @@ CLAIMS = {
              NOTE_VC + "Relational claim reduced to per-function reads clauses plus the determinism meta-theorem. ", TECH_VC + "; " + TECH_EFF + "; " + TECH_BND),
     "C13": C("Proved (fp64, bit-precise, all doubles incl. +-inf and NaN): ContinuousVariable.correct = clip, maps non-NaN into [lb, ub], leaves "
              "members unchanged, is idempotent; randomize within bounds; validators raise iff bounds inverted / equal, n_vars <= 0, patience < 1. "
-             "Proved (reals/ints): DiscreteVariable.correct / get_bounds / randomize. Bounded (law campaign, 1772 law instances): "
-             "permutation, label encoder, multi-variables child-wise, floating-point corner cases of the discrete clip, numpy scalars.",
-             NOTE_VC + "Permutation / LabelEncoder / multi-variables are outside the VC subset (numpy idioms): bounded only.", TECH_VC + "; " + TECH_BND),
+             "Proved (reals/ints): DiscreteVariable.correct / get_bounds / randomize. Proved: the four multi-variables (continuous, discrete, "
+             "multi-objective, binary) correct child-wise - one result per child, each by that child's own rule (abstract Variable contract: "
+             "into the domain, members unchanged), for list and ndarray arguments - and get() returns the children. Bounded (law campaign, "
+             "1772 law instances): permutation, label encoder, multi-variable construction, fp corner cases of the discrete clip, numpy scalars.",
+             NOTE_VC + "Permutation / LabelEncoder and the constructors of the multi-variables are outside the VC subset (numpy idioms, "
+             "pydantic construction): bounded only.", TECH_VC + "; " + TECH_BND),
     "C14": C("Proved: Task.correct_solution has one coordinate per dimension and acts coordinate-wise with the owning flattened variable "
              "(against the abstract Variable contract), initial_solution, solve. Bounded (law campaign over 30 variable mixes incl. size-1 "
              "multi-variables and single permutations): dimension, flattening order, get_bounds, empty_solution, transform_solution.",
